@@ -34,7 +34,7 @@ use bytemuck::Zeroable;
 use drift_mocks::state::MinimalSpotMarket;
 use fixed::types::I80F48;
 use kamino_mocks::state::MinimalReserve;
-use marginfi::state::price::{OraclePriceFeedAdapter, OraclePriceType, PriceAdapter};
+use marginfi::state::price::{OraclePriceFeedAdapter, OraclePriceType, PriceAdapter, PriceBias};
 use marginfi_type_crate::types::price as tp;
 use marginfi_type_crate::types::{Bank, OracleSetup};
 use solend_mocks::state::{CollateralExchangeRate, SolendMinimalReserve};
@@ -169,7 +169,10 @@ fn pyth_out(r: AResult<OraclePriceFeedAdapter>) -> String {
         Ok(a) => {
             let p = a.get_price_of_type(OraclePriceType::RealTime, None, 0);
             let e = a.get_price_of_type(OraclePriceType::TimeWeighted, None, 0);
-            format!("{} {}", res_fx(p), res_fx(e))
+            // the adjusted confidences are private fields: observed through the low-biased prices
+            let lp = guarded(|| res_fx(a.get_price_of_type(OraclePriceType::RealTime, Some(PriceBias::Low), 0)));
+            let le = guarded(|| res_fx(a.get_price_of_type(OraclePriceType::TimeWeighted, Some(PriceBias::Low), 0)));
+            format!("{} {} {} {}", res_fx(p), res_fx(e), lp, le)
         }
     }
 }
